@@ -37,6 +37,6 @@ VARIABLES l, verdict
 
 Init == /\ l \in 1..Len(Obs)
         /\ verdict = JudgeExec(RecOf(Obs[l]))
-        /\ (verdict = {} \/ PrintT(<<"VERDICT", Obs[l].id, verdict>>))
+        /\ \A cl \in verdict : PrintT(<<"V", Obs[l].id, cl>>)   \* one short line per clause
 Step == UNCHANGED <<l, verdict>>
 =============================================================================
